@@ -453,7 +453,8 @@ def gen_inline_op(rng, sh):
 SEND_FAILURES = ("SerializationError", "PayloadExceededError", "TransportLost")
 # subscribe() / register() / _unsubscribe() / _unregister() have no try/except around transport.send() (call() and
 # publish() have): the record of a call that raised stays in the table.  Found in round 5, reported to the integrator.
-AWAITING_TRIAGE = {f"send-failed/{k}/later-reply-accepted" for k in ("subscribe", "register", "unsubscribe", "unregister")}
+AWAITING_TRIAGE = {f"send-failed/{k}/later-reply-accepted": f"send-failed-{k}-record-left"
+                   for k in ("subscribe", "register", "unsubscribe", "unregister")}
 
 
 def gen_failsend_ops(rng, sh):
@@ -893,19 +894,7 @@ def run(ck):
             ck.bump("oracle:" + key)
             if key not in found or len(it[2]) < len(found[key][1][2]):
                 found[key] = (text, it)
-    # genuine findings on the unchanged tree that were reported to the integrator and are not triaged yet (no entry of
-    # any status in known_findings.json): printed with their failing input, not counted as violations of this run.
-    # As soon as known_findings.json has an entry for the key it goes through ck.violation like everything else.
-    untriaged = set()
-    for key in sorted(found):
-        fw0 = found[key][1][0]
-        full = f"{fw0}/{key}"
-        if key in AWAITING_TRIAGE and not any(k.get("property") == ck.pid and k.get("key") == full for k in ck.known):
-            text, it = found.pop(key)
-            print(f"UNTRIAGED-FINDING: property={ck.pid} key={full} {' '.join(text.split())[:300]} "
-                  f"replay: corpus/C04/send-failed-{key.split('/')[1]}-record-left-{fw0}.json", flush=True)
-            ck.bump("untriaged:" + full)
-            untriaged.add(key)
+    untriaged = split_untriaged(ck, found, AWAITING_TRIAGE)
     report_findings(ck, found, oracle_c04, lambda fw: len(join_prefix(fw)))
     # ---- model comparison ----
     bad = model_compare(ck, "c04", items)
@@ -936,6 +925,24 @@ def run(ck):
         ck.violation("obligation/" + broken[0], f"proof obligation(s) no longer check: {broken[:12]}",
                      {"broken_obligations": broken, "note": "see coverage.broken_obligations in the evidence file for the "
                       "coqc error; the history sweep of this run is the search for a failing input"}, found_input=False)
+
+
+def split_untriaged(ck, found, awaiting):
+    """genuine findings on the unchanged tree that were reported to the integrator and are not triaged yet (no entry of
+    any status in known_findings.json for the key): printed with their replay, taken out of `found`, not counted as
+    violations of this run.  As soon as known_findings.json has an entry for the key (known / fixed) it goes through
+    ck.violation like everything else.  awaiting: oracle key -> replay file stem (corpus/<pid>/<stem>-<fw>.json)"""
+    untriaged = set()
+    for key in sorted(found):
+        fw0 = found[key][1][0]
+        full = f"{fw0}/{key}"
+        if key in awaiting and not any(k.get("property") == ck.pid and k.get("key") == full for k in ck.known):
+            text, it = found.pop(key)
+            print(f"UNTRIAGED-FINDING: property={ck.pid} key={full} {' '.join(text.split())[:300]} "
+                  f"replay: corpus/{ck.pid}/{awaiting[key]}-{fw0}.json", flush=True)
+            ck.bump("untriaged:" + full)
+            untriaged.add(key)
+    return untriaged
 
 
 def report_findings(ck, found, oracle, keep_prefix_of):
